@@ -23,19 +23,20 @@ model and the code agree: no `exec` event on either side); the monitor `CHECK_PR
 import random
 
 from .. import common, seriallib
-from ..translate import serialflags, serialkeys
+from ..translate import serialflags, serialkeys, instsrc
 from . import c13x_multiroot
 
 PROP = "C13"
-MODULES = ["XpmVerif.Properties.C13", "XpmVerif.Properties.C12Source"]
+MODULES = ["XpmVerif.Properties.C13", "XpmVerif.Properties.C12Source", "XpmVerif.Properties.C13Src"]
 seriallib.install_local_findings(PROP)
 
 
 def prove(ctx):
-    msgs = [serialflags.generate(common.REPO, common.LEAN), serialkeys.generate(common.REPO, common.LEAN)]
+    msgs = [serialflags.generate(common.REPO, common.LEAN), serialkeys.generate(common.REPO, common.LEAN), instsrc.generate(common.REPO, common.LEAN)]
     ctx.notes.append(f"translator(serialflags): {msgs[0][1]}")
     ctx.notes.append(f"translator(serialkeys): {msgs[1][1]}")
-    comps = serialkeys.components(common.REPO)
+    ctx.notes.append(f"translator(instsrc): {msgs[2][1]}")
+    comps = serialkeys.components(common.REPO) + instsrc.components(common.REPO)
     ctx.extra_cov["translator_components"] = {"translated": [n for n, ok, _ in comps if ok], "untranslated": [n for n, ok, _ in comps if not ok]}
     common.check_proofs(ctx, MODULES, translate_msgs=msgs)
 
